@@ -109,7 +109,7 @@ def r12a(ctx, rep, cr):
             rep.violation('R12a', f, 'order-inverted', f.loc(), 'LockManager.locks is acquired while tx_locks is held (every other method takes locks first)')
         else:
             rep.holds('R12a', f, 'order locks→tx_locks', '')
-    rep.floor('R12a', 'functions taking both lock tables', n, 8)
+    rep.floor('R12a', 'functions taking both lock tables', n, 4)
 
 
 def r12b(ctx, rep, cr):
@@ -129,15 +129,21 @@ def r12b(ctx, rep, cr):
         for c in rel:
             if len(c.args) > 1:
                 sl = A.backward_slice(f, [c.args[1]], defs)
-                if any(x.endswith('PrepareVote.lock_handle') or x.endswith('.lock_handle') for x in sl.fields) and \
-                        any(x.endswith('DistributedTransaction.votes') for x in sl.fields):
+                handle = any(x.endswith('PrepareVote.lock_handle') or x.endswith('.lock_handle') for x in sl.fields)
+                if not handle:
+                    # the handles may be collected first through a closure (votes.values().filter_map(|v| … lock_handle …))
+                    for h in A.with_closures(cr.fns, f.name):
+                        if h.name != f.name and any(x.endswith('.lock_handle') for x in A.field_reads(h)) and \
+                                any(st[1][0] == 'agg' and st[1][1].endswith(h.name) and st[0][0] in sl.locals for b in f.bbs for st in b['s']):
+                            handle = True
+                if handle and any(x.endswith('DistributedTransaction.votes') for x in sl.fields):
                     ok = True
         if ok:
             rep.holds('R12b', f, 'release per Yes vote', '%d release call(s) fed by votes[..].lock_handle' % len(rel))
         else:
             rep.violation('R12b', f, 'no-release', f.loc(rems[0].line),
                           'the transaction is removed from pending but its Yes-vote lock handles are not released with wait-graph cleanup: locks stay behind until they expire')
-    rep.floor('R12b', 'coordinator functions removing from pending', n, 7)
+    rep.floor('R12b', 'coordinator functions removing from pending', n, 4)
     m = 0
     for f in cr.fns.values():
         if not f.name.startswith(T.DT) or not f.file.endswith('distributed_tx.rs'):
@@ -166,7 +172,7 @@ def r12b(ctx, rep, cr):
             rep.violation('R12b', f, 'split-critical-section', f.loc(bad[0].line), 'lock table and transaction→keys index are updated without holding both guards')
         else:
             rep.holds('R12b', f, 'tables updated together', '%d removes, %d index updates' % (len(rem), len(upd)))
-    rep.floor('R12b', 'LockManager removal functions', m, 5)
+    rep.floor('R12b', 'LockManager removal functions', m, 3)
 
 
 def r12d(ctx, rep, cr):
@@ -180,8 +186,8 @@ def r12d(ctx, rep, cr):
     locks = set()
     for (a, b) in edges:
         locks |= {a, b}
-    rep.floor('R12d', 'locks in the acquisition graph', len(locks), 9)
-    rep.floor('R12d', 'acquisition-order edges', len(edges), 15)
+    rep.floor('R12d', 'locks in the acquisition graph', len(locks), 5)
+    rep.floor('R12d', 'acquisition-order edges', len(edges), 6)
     for f in fns.values():
         if f.name in li.guards:
             rep.analysed(f)
